@@ -18,6 +18,9 @@ Definition dec_op (x : sx) : option aop :=
   | SL [SZ 2; SZ h] => Some (AAck h)
   | SL [SZ 3; SZ k] => Some (AAck (2 ^ 63 + k))     (* h beyond the signed range *)
   | SL [SZ 4; SZ k; SS d] => do kd <- dec_kind k; Some (ARefused kd d)
+  | SL [SZ 5; SZ g] => Some (AEnabled (negb (g =? 0)))   (* <enabled/>: does its resume attribute read as true *)
+  | SL [SZ 6; SZ h; SZ j] => if j <? 0 then None else Some (AAckRefused h (Z.to_nat j))
+  | SL [SZ 7; SZ k; SZ j] => if j <? 0 then None else Some (AAckRefused (2 ^ 63 + k) (Z.to_nat j))
   | _ => None
   end.
 
@@ -33,19 +36,20 @@ Definition dec_group (x : sx) : option (bool * list aop) :=
   match x with
   | SL [SZ 9; SL ds] => do l <- omap (fun d => do s <- as_s d; Some (ASendRaw KStanza s)) ds; Some (true, l)
   | SL [SZ 8; SL acks] => do l <- omap dec_op acks; Some (false, l)
+  | SL [SZ 10; SL os] => do l <- omap dec_op os; Some (true, l)   (* several ops observed as one step (Connect: <enabled/>, then the initial presence) *)
   | _ => do o <- dec_op x; Some (true, [o])
   end.
 
-Fixpoint a_run_groups (st : list (Z * str) * Z) (gs : list (bool * list aop))
+Fixpoint a_run_groups (st : (list (Z * str) * Z) * bool) (gs : list (bool * list aop))
   : list (list witem * list (Z * str)) :=
   match gs with
   | [] => []
   | (wire, g) :: gs' =>
       let '(st', w) := fold_left (fun acc o => let '(s1, w1) := a_step (fst acc) o in (s1, snd acc ++ w1)) g (st, []) in
-      ((if wire then w else []), fst st') :: a_run_groups st' gs'
+      ((if wire then w else []), fst (fst st')) :: a_run_groups st' gs'
   end.
 
 Definition run_typed (gs : list (bool * list aop)) : sx :=
-  SL (map (fun wq => SL [SL (map witem_sx (fst wq)); SL (map entry_sx (snd wq))]) (a_run_groups q_init gs)).
+  SL (map (fun wq => SL [SL (map witem_sx (fst wq)); SL (map entry_sx (snd wq))]) (a_run_groups a_init gs)).
 
 Definition run_C10 : sx -> sx := with_input (as_list dec_group) run_typed.
